@@ -151,4 +151,61 @@ theorem stripSuffix_splitPort (d n : Str) (hd : d.all Spec.isDigit = true) :
       simp only [stripSuffix?, hne, if_false, ih]
       split <;> simp
 
+/-! ### the RFC ordering is a strict order -/
+
+theorem bytesLt_asymm (a b : Bytes) (h : bytesLt a b = true) : bytesLt b a = false := by
+  induction a generalizing b with
+  | nil => cases b <;> simp_all [bytesLt]
+  | cons x xs ih =>
+    cases b with
+    | nil => simp [bytesLt] at h
+    | cons y ys =>
+      simp only [bytesLt, Bool.or_eq_true, decide_eq_true_eq, Bool.and_eq_true, beq_iff_eq] at h
+      simp only [bytesLt, Bool.or_eq_false_iff, decide_eq_false_iff_not, Bool.and_eq_false_imp, beq_iff_eq]
+      rcases h with h | ⟨h1, h2⟩
+      · exact ⟨by omega, fun e => by omega⟩
+      · exact ⟨by omega, fun _ => ih ys h2⟩
+
+theorem bytesLt_trans (a b c : Bytes) (h1 : bytesLt a b = true) (h2 : bytesLt b c = true) : bytesLt a c = true := by
+  induction a generalizing b c with
+  | nil =>
+    cases b with
+    | nil => simp [bytesLt] at h1
+    | cons y ys => cases c with
+      | nil => simp [bytesLt] at h2
+      | cons z zs => rfl
+  | cons x xs ih =>
+    cases b with
+    | nil => simp [bytesLt] at h1
+    | cons y ys =>
+      cases c with
+      | nil => simp [bytesLt] at h2
+      | cons z zs =>
+        simp only [bytesLt, Bool.or_eq_true, decide_eq_true_eq, Bool.and_eq_true, beq_iff_eq] at h1 h2 ⊢
+        rcases h1 with h1 | ⟨e1, h1⟩
+        · rcases h2 with h2 | ⟨e2, h2⟩
+          · left; omega
+          · left; omega
+        · rcases h2 with h2 | ⟨e2, h2⟩
+          · left; omega
+          · right; exact ⟨by omega, ih ys zs h1 h2⟩
+
+theorem pairLt_asymm (a b : Bytes × Bytes) (h : pairLt a b = true) : pairLt b a = false := by
+  simp only [pairLt, Bool.or_eq_true, Bool.and_eq_true, beq_iff_eq] at h
+  simp only [pairLt, Bool.or_eq_false_iff, Bool.and_eq_false_imp, beq_iff_eq]
+  rcases h with h | ⟨e, h⟩
+  · refine ⟨bytesLt_asymm _ _ h, fun e => ?_⟩
+    rw [e, bytesLt_irrefl] at h; exact absurd h (by simp)
+  · refine ⟨by rw [e, bytesLt_irrefl], fun _ => bytesLt_asymm _ _ h⟩
+
+theorem pairLt_trans (a b c : Bytes × Bytes) (h1 : pairLt a b = true) (h2 : pairLt b c = true) : pairLt a c = true := by
+  simp only [pairLt, Bool.or_eq_true, Bool.and_eq_true, beq_iff_eq] at h1 h2 ⊢
+  rcases h1 with h1 | ⟨e1, h1⟩
+  · rcases h2 with h2 | ⟨e2, h2⟩
+    · left; exact bytesLt_trans _ _ _ h1 h2
+    · left; rw [← e2]; exact h1
+  · rcases h2 with h2 | ⟨e2, h2⟩
+    · left; rw [e1]; exact h2
+    · right; exact ⟨e1.trans e2, bytesLt_trans _ _ _ h1 h2⟩
+
 end TornadoModel.C48
